@@ -2,6 +2,9 @@ package main
 
 import (
 	"bufio"
+	"bytes"
+	"runtime/debug"
+	"syscall"
 	"encoding/json"
 	"errors"
 	"io"
@@ -140,6 +143,82 @@ func redirectDefaults() {
 	dw.SetWriter(getWriter(STDOUT))
 	dw.SetErrorWriter(getWriter(STDERR))
 	dw.ResetLevelWriters()
+}
+
+// ---- real stdout / stderr of the process
+
+// captureStdio re-points file descriptors 1 and 2 of this process at two append-only files in
+// the working directory, so that whatever the library writes to the real stdout/stderr (the
+// package default destinations) is observed.  The original stderr is kept for diagnostics and
+// crash output.
+type stdioCapture struct {
+	files [2]*os.File // readers
+	off   [2]int64
+}
+
+var stdio *stdioCapture
+var diag = os.Stderr
+
+func captureStdio() {
+	if stdio != nil {
+		return
+	}
+	saved, err := syscall.Dup(2)
+	if err != nil {
+		panic(err)
+	}
+	diag = os.NewFile(uintptr(saved), "diag")
+	_ = debug.SetCrashOutput(diag, debug.CrashOptions{})
+	c := &stdioCapture{}
+	for i, name := range []string{"captured.stdout", "captured.stderr"} {
+		f, err := os.OpenFile(name, os.O_CREATE|os.O_TRUNC|os.O_WRONLY|os.O_APPEND, 0o644)
+		if err != nil {
+			panic(err)
+		}
+		if err := syscall.Dup2(int(f.Fd()), i+1); err != nil {
+			panic(err)
+		}
+		f.Close()
+		rd, err := os.Open(name)
+		if err != nil {
+			panic(err)
+		}
+		c.files[i] = rd
+	}
+	stdio = c
+}
+
+// drain returns what was written to stdout (i=0) / stderr (i=1) since the last call.
+func (c *stdioCapture) drain(i int) []byte {
+	st, err := c.files[i].Stat()
+	if err != nil || st.Size() <= c.off[i] {
+		return nil
+	}
+	buf := make([]byte, st.Size()-c.off[i])
+	n, _ := c.files[i].ReadAt(buf, c.off[i])
+	c.off[i] += int64(n)
+	return buf[:n]
+}
+
+// takeAll returns the recorder events plus one "w" event per record line that reached the real
+// stdout (-1) / stderr (-2) since the last call (order across the two kinds is not preserved).
+func takeAll() []wev {
+	evs := sink.take()
+	if stdio == nil {
+		return evs
+	}
+	for i, id := range []int{STDOUT, STDERR} {
+		data := stdio.drain(i)
+		for len(data) > 0 {
+			j := bytes.IndexByte(data, '\n')
+			if j < 0 {
+				j = len(data) - 1
+			}
+			evs = append(evs, wev{W: id, K: "w", payload: data[:j+1]})
+			data = data[j+1:]
+		}
+	}
+	return evs
 }
 
 // ---- ndjson output
